@@ -245,7 +245,7 @@ Definition spec_xouts (cfg : config) (xs : list xop) : list xout := snd (spec_xr
 Definition xproject (r : xout) : xout := match r with XR o => XR (project o) | XA _ => r end.
 
 (* ---------------------------------------------------------------------------------------------- *)
-(* the domain: well-formed names and type sets; the program refers to loaders it has created *)
+(* the domain: well-formed names and type sets *)
 Definition act_name (a : act) : tname := match a with ASet _ n _ | AUnlessSet _ n _ => n end.
 Definition act_ref (a : act) : lref := match a with ASet r _ _ | AUnlessSet r _ _ => r end.
 
@@ -256,7 +256,8 @@ Definition instr_wf (i : instr) : bool :=
   | IUnless _ n body => tn_wf (norm n) && forallb (fun a => tn_wf (norm (act_name a))) body
   end.
 
-(* every reference is to L or to a type-set loader made earlier by the same call *)
+(* every reference is to L or to a type-set loader made earlier by the same call: true of every `compile` output
+   (Proofs/LoaderAddScoped.v compile_scoped) *)
 Definition ref_ok (made : nat) (r : lref) : bool := match r with HL => true | HH k => Nat.ltb k made end.
 
 Fixpoint scoped (made : nat) (is : list instr) : bool :=
@@ -270,7 +271,7 @@ Fixpoint scoped (made : nat) (is : list instr) : bool :=
 Definition xop_wf (cfg : config) (x : xop) : bool :=
   match x with
   | XOp o => op_wf o
-  | XAddTypes _ ts => forallb instr_wf (compile (cfg_auth cfg) ts) && scoped 0 (compile (cfg_auth cfg) ts)
+  | XAddTypes _ ts => forallb instr_wf (compile (cfg_auth cfg) ts)
   end.
 
 (* the kind of result every operation has: px.AddTypes ends normally or with one of the two redefinition errors *)
